@@ -7,6 +7,7 @@ Implements many of the main functions used to call PROPKA.
 
 import logging
 import argparse
+import math
 from pathlib import Path
 from typing import Dict, Iterable, Iterator, List, TYPE_CHECKING, NoReturn, Optional, Tuple, TypeVar
 
@@ -145,10 +146,11 @@ def make_grid(min_: Number, max_: Number, step: Number) -> Iterator[Number]:
         max_:  maximum value of grid
         step:  grid step size
     """
-    x = min_
-    while x <= max_:
-        yield x
-        x += step
+    # generate the points by index: accumulating `x += step` drifts and may
+    # lose the end point (e.g. 0 to 14 in steps of 0.05 stopped at 13.95)
+    num_steps = int(math.floor((max_ - min_) / step + 1e-9))
+    for i in range(num_steps + 1):
+        yield min_ + i * step
 
 
 def generate_combinations(interactions: Iterable[T]) -> List[List[T]]:
